@@ -11,10 +11,13 @@ package sim
 
 import (
 	"encoding/binary"
+	"encoding/json"
 	"math"
+	"net/http"
 	"time"
 
 	"github.com/glowlabs-org/gca-backend/glow"
+	"github.com/glowlabs-org/gca-backend/server"
 )
 
 func init() {
@@ -22,10 +25,10 @@ func init() {
 		ID:             "C06",
 		Run:            runC06,
 		Rule:           "runs = generated sequences of authorizations (new, duplicate, single-field conflicts incl. key reuse, foreign/invalid signatures, for banned ids, random finite float64 coordinates) interleaved with reports, rotations and restarts; after every step the equipment model, the public surfaces (equipment list, recent reports by key, sync by id, live statistics, authorization file) and the server's own consistency check are compared; non-trivial = at least one conflict ban happened; distinct = distinct decision signatures",
-		Real:           []string{"AuthorizeEquipmentHandler (JSON decode), managedAuthorizeEquipment, saveEquipment, loadEquipment (ban replay)", "EquipmentHandler, RecentReportsHandler, sync handler, stats handler", "CheckInvariants", "restart path"},
-		Stub:           []string{"socket listeners", "peer servers (none configured)"},
+		Real:           []string{"AuthorizeEquipmentHandler (JSON decode), managedAuthorizeEquipment, saveEquipment, loadEquipment (ban replay)", "EquipmentHandler, RecentReportsHandler, sync handler, stats handler", "CheckInvariants", "restart path", "a second real server (half of the runs): forwarded copies, first-hand resubmission there"},
+		Stub:           []string{"socket listeners"},
 		Assumptions:    []string{"fresh ids always carry fresh keys (the GCA assigning one key to two live ids is outside the listed space)"},
-		RequiredProbes: []string{"hist.conflict", "hist.auth-for-banned", "hist.restart", "c06.float-pattern", "c06.ban-with-data", "c06.conflict-key-reuse", "hist.tampered-copy"},
+		RequiredProbes: []string{"hist.conflict", "hist.auth-for-banned", "hist.restart", "c06.float-pattern", "c06.ban-with-data", "c06.conflict-key-reuse", "hist.tampered-copy", "c06.real-peer", "c06.peer-resubmit-forwarded"},
 		RequiredSites:  []string{"auth.after-write", "auth.preforward"},
 	})
 }
@@ -42,10 +45,77 @@ func runC06(m *Sim) {
 	h.N.DoAuthorize(pre)
 	h.Setup(2 + m.C.Int("devices", 2))
 	c06Check(h, "setup", true)
+	// Half of the runs: a second real server, the two list each other. What srv0
+	// accepts reaches the peer as srv0's forwarded copy; the GCA later submits the
+	// identical authorization to the peer first hand, which must change nothing
+	// there either.
+	var peer *ServerNode
+	if m.C.Chance("real-peer", 1, 2) {
+		peer = w.AddServer("peer0", "temp-peer0", true)
+		peer.Boot()
+		peer.DoRegister(h.GCA.Pub, peer.Temp)
+		w.HTTPObserve = func(to *ServerNode, req *http.Request, body []byte, status int) {
+			switch req.URL.Path {
+			case "/api/v1/authorized-servers":
+				var as server.AuthorizedServer
+				if req.Method == "POST" && json.Unmarshal(body, &as) == nil {
+					to.Model.AuthorizeServer(as)
+				}
+			case "/api/v1/authorize-equipment":
+				var a glow.EquipmentAuthorization
+				if json.Unmarshal(body, &a) == nil {
+					to.Model.Authorize(a)
+				}
+			}
+		}
+		for _, target := range []*ServerNode{h.N, peer} {
+			for _, subj := range []*ServerNode{h.N, peer} {
+				target.DoAuthorizeServer(SignServer(h.GCA, server.AuthorizedServer{PublicKey: subj.Key.Pub, Location: subj.Loc, HttpPort: subj.HTTP, TcpPort: subj.TCP, UdpPort: subj.UDP}))
+			}
+		}
+		m.Probe("c06.real-peer")
+	}
+	peerCheck := func(site string) {
+		if peer == nil || !peer.Up {
+			return
+		}
+		w.Logf("peer check at %s", site)
+		// (The peer's window rotations are not followed by its model: only its
+		// equipment is compared.)
+		eq := peer.GetEquipment()
+		if len(eq) != len(peer.Model.Devices) {
+			w.Fail("C06.model", "peer-equipment-list", "the peer's equipment list has %d entries, its model %d", len(eq), len(peer.Model.Devices))
+		}
+		for id, d := range peer.Model.Devices {
+			if got, ok := eq[id]; !ok || !AuthEqual(got, d.Auth) {
+				w.Fail("C06.model", "peer-equipment-list", "device %d is missing from the peer's equipment list or listed with another authorization", id)
+			}
+		}
+	}
 	nops := 10 + m.C.Int("ops", 50)
 	for i := 0; i < nops; i++ {
 		bansBefore := len(h.N.Model.Bans)
-		switch m.C.Weighted("op", 6, 6, 2, 1, 1, 1) {
+		peerW := 0
+		if peer != nil {
+			peerW = 3
+		}
+		switch m.C.Weighted("op", 6, 6, 2, 1, 1, 1, peerW) {
+		case 6: // first-hand submission to the peer of something srv0 may have forwarded
+			if len(h.Devs) > 0 {
+				d := h.Devs[m.C.Int("peer-dev", len(h.Devs))]
+				_, known := peer.Model.Devices[d.ID]
+				r := peer.DoAuthorize(d.Auth)
+				w.Logf("first-hand submission of id=%d to the peer -> %s", d.ID, r)
+				if known && r == AuthDuplicate {
+					m.Probe("c06.peer-resubmit-forwarded")
+				}
+				if m.C.Chance("peer-restart", 1, 4) {
+					peer.Stop()
+					if err := peer.Start(); err != nil {
+						w.Fail("C06.model", "peer-restart", "the peer does not restart: %v", err)
+					}
+				}
+			}
 		case 0:
 			h.OpReport()
 		case 1:
@@ -75,6 +145,14 @@ func runC06(m *Sim) {
 			h.OpRestart(1)
 		}
 		c06Check(h, "op", len(h.N.Model.Bans) != bansBefore)
+		peerCheck("op")
+	}
+	if peer != nil {
+		peer.Stop()
+		if err := peer.Start(); err != nil {
+			w.Fail("C06.model", "peer-restart", "the peer does not restart: %v", err)
+		}
+		peerCheck("final")
 	}
 	h.OpRestart(1 + m.C.Int("restarts", 2))
 	c06Check(h, "final", true)
